@@ -115,6 +115,16 @@ def handle (line : String) : String :=
     match prefs? olz mch sp lis, calcToks? toks with
     | some p, some ts => exc (fmtCalc f64Ops p ts)
     | _, _ => "bad-op"
+  | ["tokval", k, tv] =>
+    match decCps tv with
+    | some src => if k == "S" then "OK " ++ encCps (tokenValue .string src)
+                  else if k == "U" then "OK " ++ encCps (tokenValue .uri src) else "bad-op"
+    | none => "bad-op"
+  | ["srcvalue", k, tv] =>
+    match decCps tv with
+    | some src => if k == "S" then exc (stringSourceValue src)
+                  else if k == "U" then exc (uriSourceValue src) else "bad-op"
+    | none => "bad-op"
   | ["hashchan", tv] =>
     match decCps tv with
     | some v => if !isHexColor v then "NOMATCH" else
